@@ -6,7 +6,9 @@ mod common;
 mod geom;
 mod p_dim;
 mod p_nn;
+mod p_exact;
 mod p_struct;
+mod p_total;
 mod props;
 
 use std::path::PathBuf;
